@@ -21,6 +21,11 @@
      Dev_NowBoundLeftInvalid        same cause, the surviving bound was now()-relative: the rewrite
               turned now() into `true`, ConditionExpr rejects the condition from then on - exactly
               where the design spec predicts an error
+     printed-condition-differs   the selection through the splitter is right, but the printed condition
+              (step.skp: skeleton of cond.String() parsed back) does not denote the predicate of the
+              condition the statement holds (step.sk) under the plain boolean reading at some grid point:
+              the printed condition the property names as an observation shows a different selection, and
+              the next SetTimeRange call - which re-parses that text - silently changes the statement
      setrange-mismatch | condition-grows | setrange-error | rejected-parse | panic | unmappable
      drift:setrange   the property holds but the observation is neither the design's nor that of
               the design with the proposed repair (SetRange!Strip with fixed = TRUE)               *)
@@ -47,11 +52,13 @@ StepClass(r, i, s, w, prevNT, dob, dfx, grid) ==
                    ELSE d.err = "" /\ s.lo = d.lo /\ s.hi = d.hi /\ RtOf(s) = d.rt
         asDesign == Same(dob)
         grows == i >= 2 /\ ~NoGrowth(r.obs.steps[i - 1].size, s.size)
+        faithful == ~Has(s, "sk") \/ ~Has(s, "skp") \/ PrintFaithfulSk(s.sk, s.skp, grid)
     IN IF unmapped THEN "unmappable"
        ELSE IF ~holds THEN
               IF Unstrippable(r.c) /\ asDesign
               THEN (IF failed THEN "Dev_NowBoundLeftInvalid" ELSE "Dev_TimeBoundNotPrintedAsTime")
               ELSE "setrange-mismatch"
+       ELSE IF ~faithful THEN "printed-condition-differs"
        ELSE IF grows THEN "condition-grows"
        ELSE IF ~asDesign /\ ~Same(dfx) THEN "drift:setrange"
        ELSE "ok"
@@ -67,7 +74,7 @@ StepClasses(r, i, prevNT, dcond, fcond, grid, acc) ==
            nextNT == IF Has(s, "rt") THEN s.rt ELSE IF Has(s, "nores") THEN AllTrue ELSE prevNT
        IN StepClasses(r, i + 1, nextNT, dnext, fnext, grid, Append(acc, cls))
 
-Priority == <<"panic", "setrange-error", "setrange-mismatch", "condition-grows", "unmappable",
+Priority == <<"panic", "setrange-error", "setrange-mismatch", "printed-condition-differs", "condition-grows", "unmappable",
               "Dev_NowBoundLeftInvalid", "Dev_TimeBoundNotPrintedAsTime", "drift:setrange">>
 FirstIdx(cs, c) == CHOOSE i \in 1..Len(cs) : cs[i] = c /\ \A j \in 1..(i - 1) : cs[j] # c
 
